@@ -789,6 +789,24 @@ def _strip(case):
     return case
 
 
+def _map_diff_paths(m, n) -> list[str]:
+    """Differing fields of two PsbtIn / PsbtOut; m is the original.
+
+    A signing field that a finalized original loses is labelled apart: that is serialize()'s
+    documented _DROPPED_ONCE_FINALIZED rule, and it must not hide another loss of the same field.
+    """
+    import dataclasses
+
+    finalized = isinstance(m, PsbtIn) and bool(m.final_script_sig or m.final_script_witness)
+    out = []
+    for ff in dataclasses.fields(m):
+        x, y = getattr(m, ff.name), getattr(n, ff.name)
+        if x != y:
+            dropped = finalized and ff.name in SIGNING_FIELDS and not y and y is not x
+            out.append(".<signing field of a finalized input, dropped>" if dropped else f".{ff.name}")
+    return out
+
+
 def _diff_paths(a, b) -> list[str]:
     """Which dataclass fields differ between two Psbt (inputs/outputs without their index)."""
     import dataclasses
@@ -800,9 +818,7 @@ def _diff_paths(a, b) -> list[str]:
             if len(x) != len(y):
                 out.append(f"{f.name}.len")
             for m, n in zip(x, y):
-                for ff in dataclasses.fields(m):
-                    if getattr(m, ff.name) != getattr(n, ff.name):
-                        out.append(f"{f.name}[].{ff.name}")
+                out.extend(f"{f.name}[]{path}" for path in _map_diff_paths(m, n))
         elif x != y:
             out.append(f.name)
     return sorted(set(out)) or ["(objects differ, no field does)"]
@@ -833,7 +849,9 @@ def round_trip_failures(case: dict) -> list[tuple[str, str]]:
     b = step("serialize", p.serialize)
     if b is not None:
         p2 = step("parse(serialize(p))", lambda: Psbt.parse(b))
-        if p2 is not None:
+        if p2 is None:
+            p2 = object()
+        else:
             if p2 != p:
                 for path in _diff_paths(p, p2):
                     fails.append((f"parse(serialize(p)) != p at {path}", ""))
@@ -841,7 +859,7 @@ def round_trip_failures(case: dict) -> list[tuple[str, str]]:
             if b2 is not None and b2 != b:
                 fails.append(("parse(serialize(p)).serialize() != serialize(p)", f"{len(b)} vs {len(b2)} bytes"))
         p4 = step("b64decode(b64encode(p))", lambda: Psbt.b64decode(p.b64encode()))
-        if p4 is not None and p4 != p:
+        if p4 is not None and p4 != p and p4 != p2:  # p4 == p2: already reported just above
             for path in _diff_paths(p, p4):
                 fails.append((f"b64decode(b64encode(p)) != p at {path}", ""))
     d = step("to_dict", p.to_dict)
@@ -857,7 +875,6 @@ def round_trip_failures(case: dict) -> list[tuple[str, str]]:
 
 def _lone_self_test(strat, builder, cls, n_examples: int, hard_errors: list[str]) -> None:
     """Lone PsbtIn / PsbtOut: every case builds; binary and dict round trips of the map's own codec."""
-    import dataclasses
     import json
 
     import hypothesis
@@ -886,9 +903,8 @@ def _lone_self_test(strat, builder, cls, n_examples: int, hard_errors: list[str]
             b = obj.serialize(psbt_version=v)
             back = cls.parse(b, psbt_version=v)
             if back != obj:
-                for ff in dataclasses.fields(obj):
-                    if getattr(obj, ff.name) != getattr(back, ff.name):
-                        note(f"v{v} parse(serialize(x)) != x at {ff.name}", case)
+                for path in set(_map_diff_paths(obj, back)):
+                    note(f"v{v} parse(serialize(x)) != x at {path}", case)
             elif back.serialize(psbt_version=v) != b:
                 note(f"v{v} reserialization differs", case)
         except Exception as e:  # noqa: BLE001
